@@ -30,7 +30,7 @@ class C04(Prop):
     floors = {'quick': (200, 50), 'thorough': (4000, 1000)}
     must_reach = ['offline/ast_visitor:StlDenseTimeOfflineAstVisitor.visitPredicate']
     quick_cases = 6000
-    thorough_cases = 200000
+    thorough_cases = 2000000
     shrink_data = False
 
     def gen(self, rng, ctx):
